@@ -248,6 +248,7 @@ def pEntry : P SQEntry := do
   | 3 => pure (.failedFut (← nat))
   | 4 => pure .endMark
   | 5 => pure .errorMark
+  | 7 => pure (.cancelledFut (← nat))
   | _ => failure
 
 def sSQ : SQOut → String
@@ -259,7 +260,7 @@ def sSQ : SQOut → String
 
 def sqCase : P String := do
   let entries ← many pEntry
-  pure (" ; ".intercalate ((sqRun (2 * entries.length + 4) none entries).map sSQ))
+  pure (" ; ".intercalate ((sqRun (2 * entries.length + 4) none (sqAfterProducer entries)).map sSQ))
 
 def runP (p : P String) (toks : List String) : String :=
   match toks.mapM (fun w => w.toInt?) with
